@@ -20,7 +20,7 @@ from vlib import contracts
 from vlib import election as E
 
 RULE = ("simulated elections driven through consistent_sampling -> prep_comparison_sample -> set_p_values; one case = one "
-        "election + sample; non-trivial = some assertion saw a discrepancy (a datum different from the error-free value) "
+        "election + sample (stale test bounds and margins revised after they were set, in 30 % each); non-trivial = some assertion saw a discrepancy (a datum different from the error-free value) "
         "and, under style, at least one sampled card was filtered out for some contest; distinct = hash of (spec, sizes)")
 REQUIRED = ["contract:Assertion.mvrs_to_data", "contract:Assertion.set_p_values", "contract:Assertion.set_margin_from_cvrs",
             "data_values_checked", "u_checked:POLLING", "u_checked:CARD_COMPARISON", "u_checked:ONEAUDIT",
